@@ -2,7 +2,7 @@
 # tools/runall.sh <quick|thorough> [seed]: run every registered check in sequence, print one line each.
 cd "$(dirname "$0")/.." || exit 2
 tier="${1:-quick}"; export VERIF_SEED="${2:-0}"
-fail=0
+fail=0; mkdir -p out
 for id in $(python3 -c "import json;print(' '.join(c['property_id'] for c in json.load(open('MANIFEST.json'))['checks']))"); do
   t0=$(date +%s)
   ./check "$id" "$tier" > "out/last_$id.log" 2>&1; rc=$?
